@@ -118,40 +118,70 @@ pub fn perform(spec: &ExtSpec) -> ExtResult {
 }
 
 #[derive(Clone, Debug)]
-pub struct ProcSample {
-    pub pid: i32,
+pub struct TaskSample {
+    pub tid: i32,
     pub state: String,
     pub syscall: String,
     pub wchan: String,
+    /// What the first syscall argument refers to when it is a file descriptor of the process.
+    pub fd_target: String,
+}
+
+#[derive(Clone, Debug)]
+pub struct ProcSample {
+    pub pid: i32,
     pub io: String,
-    pub fd1: String,
+    pub tasks: Vec<TaskSample>,
 }
 
 fn read_small(p: &str) -> String {
     std::fs::read_to_string(p).unwrap_or_default().trim().to_string()
 }
 
-pub fn sample(pid: i32) -> ProcSample {
-    let stat = read_small(&format!("/proc/{}/stat", pid));
-    let state = stat
-        .rsplit(')')
+fn state_of(stat: &str) -> String {
+    stat.rsplit(')')
         .next()
         .and_then(|r| r.split_whitespace().next())
         .unwrap_or("?")
-        .to_string();
+        .to_string()
+}
+
+/// Samples every thread of a process: state, current syscall, wait channel, and the target of the
+/// descriptor the syscall is operating on.
+pub fn sample(pid: i32) -> ProcSample {
+    let mut tasks = Vec::new();
+    if let Ok(rd) = std::fs::read_dir(format!("/proc/{}/task", pid)) {
+        for e in rd.flatten() {
+            if let Ok(tid) = e.file_name().to_string_lossy().parse::<i32>() {
+                let base = format!("/proc/{}/task/{}", pid, tid);
+                let syscall = read_small(&format!("{}/syscall", base));
+                let fd_target = syscall
+                    .split_whitespace()
+                    .nth(1)
+                    .and_then(|a| i64::from_str_radix(a.trim_start_matches("0x"), 16).ok())
+                    .filter(|fd| *fd >= 0 && *fd < 4096)
+                    .and_then(|fd| std::fs::read_link(format!("/proc/{}/fd/{}", pid, fd)).ok())
+                    .map(|p| p.to_string_lossy().to_string())
+                    .unwrap_or_default();
+                tasks.push(TaskSample {
+                    tid,
+                    state: state_of(&read_small(&format!("{}/stat", base))),
+                    syscall,
+                    wchan: read_small(&format!("{}/wchan", base)),
+                    fd_target,
+                });
+            }
+        }
+    }
+    tasks.sort_by_key(|t| t.tid);
     ProcSample {
         pid,
-        state,
-        syscall: read_small(&format!("/proc/{}/syscall", pid)),
-        wchan: read_small(&format!("/proc/{}/wchan", pid)),
         io: read_small(&format!("/proc/{}/io", pid))
             .lines()
             .filter(|l| l.starts_with("rchar") || l.starts_with("wchar"))
             .collect::<Vec<_>>()
             .join(" "),
-        fd1: std::fs::read_link(format!("/proc/{}/fd/1", pid))
-            .map(|p| p.to_string_lossy().to_string())
-            .unwrap_or_default(),
+        tasks,
     }
 }
 
@@ -171,6 +201,49 @@ pub fn children_of(pid: i32) -> Vec<i32> {
         }
     }
     out
+}
+
+/// A structural deadlock: every thread of every process of the tree sleeps in a call that waits
+/// for another member of the tree (pipe read/write, wait4/waitid, futex = thread join), at least
+/// one of them on a pipe, and no byte moved between two samples taken one second apart.
+pub fn deadlock_witness(s1: &[ProcSample], s2: &[ProcSample]) -> (bool, Value) {
+    let mut all_blocked = true;
+    let mut on_pipe = 0;
+    let mut why = Vec::new();
+    for p in s2.iter() {
+        if p.tasks.is_empty() {
+            all_blocked = false;
+            why.push(format!("pid {} has no readable tasks", p.pid));
+        }
+        for t in p.tasks.iter() {
+            let nr = syscall_nr(&t.syscall);
+            let pipe = t.fd_target.starts_with("pipe:");
+            let ok = t.state == "S"
+                && match nr {
+                    Some(0) | Some(1) => pipe,
+                    Some(61) | Some(247) | Some(202) => true,
+                    _ => false,
+                };
+            if !ok {
+                all_blocked = false;
+                why.push(format!("pid {} tid {} state {} syscall {:?} on {:?}", p.pid, t.tid, t.state, nr, t.fd_target));
+            }
+            if matches!(nr, Some(0) | Some(1)) && pipe && t.state == "S" {
+                on_pipe += 1;
+            }
+        }
+    }
+    let no_progress = s1.len() == s2.len() && s1.iter().zip(s2.iter()).all(|(a, b)| a.pid == b.pid && a.io == b.io);
+    let witness = all_blocked && on_pipe >= 1 && no_progress;
+    let ev = json!({
+        "all_threads_blocked_on_tree_members": all_blocked,
+        "threads_blocked_on_a_pipe": on_pipe,
+        "no_io_progress_between_samples": no_progress,
+        "not_blocked": why,
+        "processes": s2.iter().map(|p| json!({"pid": p.pid, "io": p.io,
+            "tasks": p.tasks.iter().map(|t| json!({"tid": t.tid, "state": t.state, "syscall": t.syscall, "wchan": t.wchan, "fd": t.fd_target})).collect::<Vec<_>>()})).collect::<Vec<_>>(),
+    });
+    (witness, ev)
 }
 
 #[derive(Debug)]
@@ -221,23 +294,8 @@ pub fn call_in_subprocess(cverif: &Path, spec: &ExtSpec, timeout: Duration, scra
                     let s1: Vec<ProcSample> = std::iter::once(pid).chain(kids.iter().copied()).map(sample).collect();
                     std::thread::sleep(Duration::from_millis(1000));
                     let s2: Vec<ProcSample> = std::iter::once(pid).chain(kids.iter().copied()).map(sample).collect();
-                    // witness: parent sleeping in wait4/waitid, a child sleeping in write(1, ...) on a pipe, no I/O progress
-                    let parent_waiting = matches!(syscall_nr(&s2[0].syscall), Some(61) | Some(247));
-                    let mut child_blocked = false;
-                    for (a, b) in s1.iter().zip(s2.iter()).skip(1) {
-                        let nr = syscall_nr(&b.syscall);
-                        let fd = b.syscall.split_whitespace().nth(1).unwrap_or("");
-                        if nr == Some(1) && (fd == "0x1" || fd == "1") && b.fd1.starts_with("pipe:") && a.io == b.io {
-                            child_blocked = true;
-                        }
-                    }
-                    let witness = parent_waiting && child_blocked;
-                    let ev = json!({
-                        "waited_s": t0.elapsed().as_secs_f64(),
-                        "samples": s2.iter().map(|s| json!({"pid": s.pid, "state": s.state, "syscall": s.syscall,
-                            "wchan": s.wchan, "io": s.io, "fd1": s.fd1})).collect::<Vec<_>>(),
-                        "parent_in_wait": parent_waiting, "child_blocked_writing_to_pipe": child_blocked,
-                    });
+                    let (witness, mut ev) = deadlock_witness(&s1, &s2);
+                    ev["waited_s"] = json!(t0.elapsed().as_secs_f64());
                     for k in kids {
                         unsafe {
                             libc::kill(k, libc::SIGKILL);
